@@ -8,12 +8,12 @@ import corpus
 
 V = '/verif'
 props = {json.loads(l)['id']: json.loads(l) for l in open(V + '/properties.jsonl')}
-CONTROLS = "m07a m07c m08d m12e m12f m17c m17d m18a m18c m19c".split()
+CONTROLS = "m07a m07c m08d m12e m12f m17c m17d m18a m18c m19c n01 n02 n04 n09 n14 n15 n20".split()
 
 NOT_BUILT = {
  'C01': "the (B) cross-check with two callers + reader + closer; `mcp.call`'s mapping of closed connections is asserted in the C04 harness (`C01.closed-connection-identified`).",
- 'C02': "H4 (HTTP pre-validation status codes of `servePOST`/SSE POST) — only the duplicate-id 400 is decided (C10-H2).",
- 'C03': "H2 as a scheduler search and H4 (202 only after every message was enqueued): ordering is decided by the (A) queue-step harness instead.",
+ 'C02': "the SSE transport's POST validation (the streamable `servePOST` pre-validation is built: `zzC02Prevalidation`).",
+ 'C03': "H2 as a scheduler search: ordering is decided by the (A) queue-step harness instead (H4, 202-after-enqueue, is built: `zzC03Accepted`).",
  'C05': "H3 (global deadlock-freedom search, lock-order graph); `ClientSession.Close` (symmetric to the server side) is not instantiated.",
  'C08': "built as an exhaustive bounded exploration of one logical stream (all splits, cursors, generations) rather than as an (A) invariant step; concurrent writers racing with `acquireStream` are outside.",
  'C09': "H3 (`Read` returns the failure once `fail` was called).",
